@@ -441,12 +441,34 @@ func main() {
 				rs := make([]blockRes, len(w.reps))
 				var same []*blockRes
 				for k, rep := range w.reps {
+					if rep.name == "A" && !rep.dead {
+						// A heard of the block's transactions before the block (gossip, RPC): they went
+						// through its pool's admission. What a node's pool has seen is local history.
+						for _, raw := range txs {
+							func() {
+								defer func() { recover() }()
+								rep.app.GetTxPool().ReceiveTx(gtypes.Tx(raw))
+							}()
+						}
+					}
 					if rep.name != "D" {
 						rs[k] = rep.run(w.height, txs)
 						same = append(same, &rs[k])
 					}
 				}
 				settle(same)
+				for _, rep := range w.reps {
+					if rep.name == "A" && !rep.dead {
+						var ts []gtypes.Tx
+						for _, raw := range txs {
+							ts = append(ts, gtypes.Tx(raw))
+						}
+						func() {
+							defer func() { recover() }()
+							rep.app.GetTxPool().Update(w.height, ts)
+						}()
+					}
+				}
 				rb := rs[0]
 				lastInvalid = map[int]bool{}
 				var kept [][]byte
@@ -522,6 +544,9 @@ func main() {
 		// proxy: CALL(gas, address in call data word 0, no value, no data), then INVALID: a frame that touches the
 		// address and fails - it must leave no trace but the sender's nonce
 		"proxy": "6010600c60003960106000f3" + "600060006000600060006000355af1" + "fe",
+		// init code that reads return data at an offset at the edge of the machine word (offset + length wraps):
+		// the frame must fail, the executor must not panic
+		"rdcwrap": "600167ffffffffffffffff60003e00",
 		"revert":  "60006000fd",
 		"invalid": "fe",
 		"empty":   "",
@@ -560,8 +585,8 @@ func main() {
 		// contracts reads the block context, so the final application hash must be the same (C09: a failed
 		// transaction changes nothing; C05: the state is a function of the transactions).
 		if s == 1 || s == 2 {
-			txs := []string{"create 0 mortal", "create 1 proxy", "calld 0 c0:0 01", "call 0 c0:0", "pcall 1 c1:0 c0:0", "calld 2 c0:0 01", "pcall 1 c1:0 c0:0"}
-			cut := map[int][]int{1: {2, 3, 5, 7}, 2: {2, 3, 4, 5, 6, 7}}[s]
+			txs := []string{"create 0 mortal", "create 1 proxy", "calld 0 c0:0 01", "call 0 c0:0", "pcall 1 c1:0 c0:0", "calld 2 c0:0 01", "pcall 1 c1:0 c0:0", "create 2 rdcwrap"}
+			cut := map[int][]int{1: {2, 3, 5, 7, 8}, 2: {2, 3, 4, 5, 6, 7, 8}}[s]
 			prev := 0
 			for _, c := range cut {
 				script = append(script, txs[prev:c])
